@@ -165,6 +165,26 @@ def run_case(case):
                 raise Violation("encrypt(decrypt(x)) != x (n=%d)" % n, "ffx:inverse2")
             if int(ffx.encrypt(key, make_bits(x, n, case.get("route", "ctor"))[0])) != int(e):
                 raise Violation("encrypt is not deterministic", "ffx:determinism")
+            # a PRP object used repeatedly with ONE message object whose bits the caller changes in place between the calls
+            # (Bitset is mutable: item assignment is part of its interface): each call sees the current bits
+            if len(key) > 0:
+                prp1 = get_prp_implementation("BitwiseFPEPRP")(message_bit_length=n, key_bit_length=len(key) * 8)
+                kb1 = Bitset(key, len(key) * 8)
+                mobj = Bitset(x, n)
+                first = prp1(kb1, mobj)
+                if int(first) != int(e):
+                    raise Violation("BitwiseFPEPRP(k, x) differs from BitwiseFFX.encrypt(k, x)", "fpeprp:differs")
+                pos = case["y"] % n
+                mobj[pos] = not mobj[pos]
+                x2 = x ^ (1 << (n - 1 - pos))
+                if int(mobj) == x2:   # (whether item assignment itself works is C18's subject)
+                    second = prp1(kb1, mobj)
+                    if int(second) != int(ffx.encrypt(key, Bitset(x2, n))):
+                        raise Violation("a PRP object called again with the same message object after one of its bits was changed in place "
+                                        "returns %s the image of the changed string (n=%d)" % (
+                                            "the OLD image instead of" if int(second) == int(first) else "something else than", n), "fpeprp:stale_after_in_place_change")
+                    if int(prp1(kb1, Bitset(x, n))) != int(e):
+                        raise Violation("the image of x changed after an unrelated call", "fpeprp:unstable")
             y = case["y"] % (1 << n)
             if y != x and int(ffx.encrypt(key, Bitset(y, n))) == int(e):
                 raise Violation("two different %d-bit inputs encrypt to the same output" % n, "ffx:collision")
